@@ -233,26 +233,24 @@ structure TickState where
   lastTx  : Nat
 deriving Repr, DecidableEq
 
-/-- one call of automata_tick; second component: the periodic Hellos sent (times in ms) -/
-def tick (s : TickState) (port : PortMode) (nowMs : Nat) : TickState × List Nat :=
+/-- the mapping block of automata_tick (inactivity deadline, charge deadline) -/
+def tickMapStage (mp : Option (Fsm × Option MapState)) (tb : Option Table) (nowS : Nat) :
+    Option (Fsm × Option MapState) × Option Table :=
+  match mp with
+  | some (f, some m) =>
+    let (f1, m1, tb1) :=
+      if mapCheckInactive m nowS then
+        (stepMapping f (-1) nowS, mapResetCharge { m with inactTs := 0 }, tb.map Table.clear)
+      else (f, m, tb)
+    (some (f1, some (mapCheckCharge m1 nowS).1), tb1)
+  | other => (other, tb)
+
+/-- the enumeration block of automata_tick; returns the automaton, the last-transmit
+    time stamp and the periodic Hellos sent (times in ms) -/
+def tickEnumStage (en : Option (Fsm × Option Band)) (table : Option Table) (lastTx0 : Nat) (port : PortMode) (nowMs : Nat) :
+    Option (Fsm × Option Band) × Nat × List Nat :=
   let nowS := nowMs / 1000
-  -- mapping block
-  let (mapping, table) : Option (Fsm × Option MapState) × Option Table :=
-    match s.mapping with
-    | some (f, some m) =>
-      let (f1, m1, tb1) :=
-        if mapCheckInactive m nowS then
-          let m' := { m with inactTs := 0 }
-          let f' := stepMapping f (-1) nowS
-          (f', mapResetCharge m', s.table.map Table.clear)
-        else (f, m, s.table)
-      let (m2, _) := mapCheckCharge m1 nowS
-      (some (f1, some m2), tb1)
-    | other => (other, s.table)
-  -- session expiry
-  let table := table.map (fun t => t.expire nowS)
-  -- enumeration block
-  match s.enum with
+  match en with
   | some (e, some b) =>
     let tableEmpty := match table with | some t => t.isEmpty | none => true
     let allComplete := match table with | some t => t.allComplete | none => true
@@ -265,23 +263,29 @@ def tick (s : TickState) (port : PortMode) (nowMs : Nat) : TickState × List Nat
     if e1.state = 1 then
       let (e2, b2, lastTx2, hellos) : Fsm × Band × Nat × List Nat :=
         if b1.helloTs > 0 ∧ nowMs ≥ b1.helloTs then
-          let lastTx := match port with | .wired => s.lastTx | _ => 0
+          let lastTx := match port with | .wired => lastTx0 | _ => 0
           if lastTx > 0 ∧ diff64 nowMs lastTx < X.helloMinIntervalMs then
-            (e1, { b1 with helloTs := lastTx + X.helloMinIntervalMs }, s.lastTx, [])
+            (e1, { b1 with helloTs := lastTx + X.helloMinIntervalMs }, lastTx0, [])
           else
             let (sent, lastTx') := match port with
               | .wired => (true, nowMs)
-              | .nolast => (true, s.lastTx)
-              | .none => (false, s.lastTx)
+              | .nolast => (true, lastTx0)
+              | .none => (false, lastTx0)
             let b' := bandDoHello b1 nowMs
             let b'' := if b'.helloTs < nowMs + X.helloMinIntervalMs then { b' with helloTs := nowMs + X.helloMinIntervalMs } else b'
             (stepEnumeration e1 X.enumHello nowS, b'', lastTx', if sent then [nowMs] else [])
-        else (e1, b1, s.lastTx, [])
+        else (e1, b1, lastTx0, [])
       let b3 := if b2.blockTs > 0 ∧ nowMs ≥ b2.blockTs then bandChooseHelloTime (bandUpdateStats b2 nowMs) nowMs else b2
-      ({ mapping := mapping, enum := some (e2, some b3), table := table, lastTx := lastTx2 }, hellos)
-    else
-      ({ mapping := mapping, enum := some (e1, some b1), table := table, lastTx := s.lastTx }, [])
-  | other =>
-    ({ mapping := mapping, enum := other, table := table, lastTx := s.lastTx }, [])
+      (some (e2, some b3), lastTx2, hellos)
+    else (some (e1, some b1), lastTx0, [])
+  | other => (other, lastTx0, [])
+
+/-- one call of automata_tick; second component: the periodic Hellos sent (times in ms) -/
+def tick (s : TickState) (port : PortMode) (nowMs : Nat) : TickState × List Nat :=
+  let nowS := nowMs / 1000
+  let (mapping, table) := tickMapStage s.mapping s.table nowS
+  let table := table.map (fun t => t.expire nowS)
+  let (en, lastTx, hellos) := tickEnumStage s.enum table s.lastTx port nowMs
+  ({ mapping := mapping, enum := en, table := table, lastTx := lastTx }, hellos)
 
 end LLTD
